@@ -339,21 +339,9 @@ func (p *Peer) handleReady(rd myraft.Ready) error {
 		info.setInjected(failpoints.ShouldFailBeforeStorage())
 	}
 
-	if !myraft.IsEmptyHardState(rd.HardState) {
-		if err := p.raftLog.injectFailure("before_hard_state"); err != nil {
-			return err
-		}
-		if err := p.storage.SetHardState(rd.HardState); err != nil {
-			return err
-		}
-		if info := p.raftLog; info != nil {
-			info.capturePointer(manifest.RaftLogPointer{
-				GroupID:      info.groupID,
-				AppliedIndex: rd.Commit,
-				AppliedTerm:  rd.Term,
-			})
-		}
-	}
+	// Each of the three steps below is its own durable WAL record. The hard state goes last:
+	// its commit index may refer to the snapshot and the entries of this very Ready, and a crash
+	// between the records must never leave a commit index beyond the recovered log.
 	if !myraft.IsEmptySnap(rd.Snapshot) {
 		if err := p.raftLog.injectFailure("before_snapshot"); err != nil {
 			return err
@@ -386,6 +374,21 @@ func (p *Peer) handleReady(rd myraft.Ready) error {
 				GroupID:      info.groupID,
 				AppliedIndex: last.Index,
 				AppliedTerm:  last.Term,
+			})
+		}
+	}
+	if !myraft.IsEmptyHardState(rd.HardState) {
+		if err := p.raftLog.injectFailure("before_hard_state"); err != nil {
+			return err
+		}
+		if err := p.storage.SetHardState(rd.HardState); err != nil {
+			return err
+		}
+		if info := p.raftLog; info != nil {
+			info.capturePointer(manifest.RaftLogPointer{
+				GroupID:      info.groupID,
+				AppliedIndex: rd.Commit,
+				AppliedTerm:  rd.Term,
 			})
 		}
 	}
